@@ -95,9 +95,17 @@ def prog_array(rnd, tname):
     block('S!F1:F4', '=A1:A2-B1', ['S!A1', 'S!A2', 'S!B1'])  # filled with #N/A
     block('S!G1:H3', '=A1:A3*B1', a13 + ['S!B1'])          # one column expanded to two
     cells.append({'a': 'S!C5', 'f': '=SUM(D1:D3)+E2', 'p': ['S!D1', 'S!D2', 'S!D3', 'S!E2'], 'd': []})
+    # functions that ask "am I inside an array formula?": inside one they work per element,
+    # outside an array argument is itself the error case
+    block('S!I1:I3', '=IFERROR(A1:A3/B1,-1)', a13 + ['S!B1'])
+    block('S!J1:J3', '=IFNA(A1:A3,7)', a13)
+    cells.append({'a': 'S!C6', 'f': '=IFERROR(A1:A3,5)', 'p': a13, 'd': []})
+    cells.append({'a': 'S!C7', 'f': '=IFNA(A1:A2,9)+B1', 'p': ['S!A1', 'S!A2', 'S!B1'], 'd': []})
+    cells.append({'a': 'S!C8', 'f': '=IFS(A1:A3>0,1,TRUE,2)', 'p': a13, 'd': []})
     spec = {'sheets': ['S'], 'active': 'S', 'data_sheet': None, 'cells': cells, 'names': {},
             'iter': None, 'pinned': []}
-    targets = ['S!D1:D3', 'S!E1:E2', 'S!F1:F4', 'S!G1:H3', 'S!D2', 'S!F4', 'S!H3', 'S!C5', 'S!E1']
+    targets = ['S!D1:D3', 'S!E1:E2', 'S!F1:F4', 'S!G1:H3', 'S!D2', 'S!F4', 'S!H3', 'S!C5', 'S!E1',
+               'S!I1:I3', 'S!J1:J3', 'S!I2', 'S!C6', 'S!C7', 'S!C8', 'S!C6', 'S!C8']
     ops = []
     for _ in range(rnd.choice((2, 3, 5))):
         if ops and rnd.random() < 0.3:
